@@ -210,4 +210,20 @@ def RawLayer.factory (r : RawLayer) : Except FactoryErr Bag :=
       reversible (nodesAt 0 l.inputs) (nodesAt l.oBase l.outputs) es (nodesAt l.biBase l.backIn) (nodesAt l.boBase l.backOut)
         ((r.fields.filter (·.opt)).map (·.name)) fwd back persistent l.next
 
+/-! ### the container of a cache layer: layers/cache.py `CacheToStorage._prepare_container` -/
+
+/-- the arguments of `EdgesBag(...)` in `_prepare_container`: per cached name an input node, an output node and a `CacheEdge` with a
+storage of its own; every other name passes (`virtual=AntiSet(outputs)`); all the nodes are optional -/
+def cacheRaw (s : Nat) (xs : List String) : RawBag :=
+  let ins := nodesAt 0 xs
+  let outs := nodesAt xs.length xs
+  { inputs := ins, outputs := outs,
+    edges := xs.zipIdx.map fun (x, i) => { edge := .cache (s + i), ins := [⟨i, x⟩], out := ⟨xs.length + i, x⟩ },
+    virt := .cofin xs, persistent := [], optional := ins ++ outs, ctx := .ident, next := xs.length + xs.length }
+
+/-- `names`: the names given to the cache layer; `prev`: the output names of the previous container -/
+def cachedNames (names : NameSet) (prev : List String) : List String := prev.filter names.mem
+
+def cacheBag (s : Nat) (names : NameSet) (prev : List String) : Except BagErr Bag := mkBag (cacheRaw s (cachedNames names prev))
+
 end CM
